@@ -93,6 +93,12 @@ def splitAtByte : Text → Nat → Text × Text
 
 def spaces (n : Nat) : Text := List.replicate n ' '
 
+/-- The text without its white space (what a pure re-layout must preserve). -/
+def nonWs (t : Text) : Text := t.filter fun c => !isWs c
+
+/-- `' '` or `'\t'`: what `trim_end_matches([' ', '\t'])` removes. -/
+def isBlank (c : Char) : Bool := c == ' ' || c == '\t'
+
 /-- `String::repeat`. -/
 def repeatText (t : Text) : Nat → Text
   | 0 => []
@@ -355,6 +361,30 @@ def computedHazards : List (Cls × Cls × Style) :=
   Cls.all.flatMap fun a => Cls.all.flatMap fun b => [Style.spaced, Style.compact].filterMap fun st =>
     if !excludedKind a.kind && !excludedKind b.kind && gluedUnsafe a b st then some (a, b, st) else none
 
+/-- The recorded glue hazards (known finding C15-glue-hazards), glued in BOTH spacing styles: written out by
+hand; `c15_glue_safe_partial` proves that the generated glue rule has no unsafe pair outside this table. -/
+def hazardsAlways : List (Cls × Cls) := [
+  (.k .Dot, .k .Dot), (.k .Dot, .k .DotDot), (.k .DotDot, .k .Dot), (.k .DotDot, .k .DotDot),
+  (.k .LParen, .k .Star), (.k .LParen, .k .Power),
+  (.k .IntLiteral, .k .Dot), (.k .IntLiteral, .k .Hash), (.k .IntLiteral, .k .TypedLiteralPrefix),
+  (.k .IntLiteral, .temporal), (.k .RealLiteral, .k .TypedLiteralPrefix), (.k .TimeLiteral, .k .TypedLiteralPrefix),
+  (.k .TimeOfDayLiteral, .k .Dot), (.k .TimeOfDayLiteral, .k .DotDot), (.k .TimeOfDayLiteral, .k .TypedLiteralPrefix),
+  (.k .DateAndTimeLiteral, .k .Dot), (.k .DateAndTimeLiteral, .k .DotDot),
+  (.k .DateAndTimeLiteral, .k .TypedLiteralPrefix), (.k .DirectAddress, .k .Dot),
+  (.k .Ident, .k .Hash), (.k .Ident, .k .TypedLiteralPrefix), (.k .Ident, .temporal),
+  (.k .Kw, .k .Hash), (.k .Kw, .k .TypedLiteralPrefix), (.k .Kw, .temporal),
+  (.temporal, .k .Plus), (.temporal, .k .Minus), (.temporal, .k .IntLiteral), (.temporal, .k .RealLiteral)]
+
+/-- Hazards that exist only in the compact spacing style (operators glued to their neighbours). -/
+def hazardsCompact : List (Cls × Cls) := [
+  (.k .Colon, .k .Arrow), (.k .Colon, .k .Eq), (.k .Eq, .k .Gt), (.k .Eq, .k .GtEq),
+  (.k .Lt, .k .Arrow), (.k .Lt, .k .Eq), (.k .Lt, .k .Gt), (.k .Lt, .k .GtEq),
+  (.k .Gt, .k .Arrow), (.k .Gt, .k .Eq), (.k .Star, .k .Star), (.k .Star, .k .Power),
+  (.k .Slash, .k .Star), (.k .Slash, .k .Slash), (.k .Slash, .k .Power)]
+
+def knownHazard (a b : Cls) (st : Style) : Bool :=
+  hazardsAlways.contains (a, b) || (st == .compact && hazardsCompact.contains (a, b))
+
 /-- Adjacent token pairs of one line that are glued unsafely (includes pairs with `Error` tokens). -/
 def lineHazards (st : Style) : List Tok → List (Cls × Cls)
   | a :: b :: rest =>
@@ -410,6 +440,33 @@ def nextInVar (inVar : Bool) (ts : List Tok) : Bool :=
 
 def skipAlignOf (l : LineIn) : Bool := l.inBlockComment || l.hasLineComment || l.hasPragma || l.hasString
 
+/-- `current_indent` and `dedent_after` of one line, from `indent_level` and the first token. -/
+def curIndent (cfg : Config) (indent : Int) (toks : List Tok) : Int × Bool :=
+  match toks.head? with
+  | some first =>
+    if isDedentToken first then
+      let shouldDedent := match cfg.endStyle with
+        | .aligned => true
+        | .indented => !isEndKeyword first
+      if shouldDedent then (max (indent - 1) 0, false) else (indent, true)
+    else (indent, false)
+  | none => (indent, false)
+
+/-- The formatted line of a non-blank line outside block comments, with its masks. -/
+def emitLine (cfg : Config) (l : LineIn) (lineInVar : Bool) (cur : Nat) : OutLine :=
+  let prefix_ := repeatText (indentUnit cfg) cur
+  let verbatim := l.hasLineComment || l.hasPragma
+  let line :=
+    if verbatim then prefix_ ++ trim l.text
+    else prefix_ ++ formatLineTokens l.toks cfg.kwCase cfg.style
+  { text := line, inVar := lineInVar, colon := if lineInVar && !verbatim then findTypeColon line else none,
+    skipAlign := skipAlignOf l }
+
+/-- `indent_level` after the line. -/
+def nextIndent (cur : Int) (dedentAfter : Bool) (toks : List Tok) : Int :=
+  let lvl := if lineHasIndentStart toks then cur + 1 else cur
+  if dedentAfter then lvl - 1 else lvl
+
 /-- Body of the `for i in 0..line_count` loop.  `none` = the Rust code panics
 (`indent_unit.repeat(current_indent as usize)` with a negative `current_indent`). -/
 def stepLine (cfg : Config) (st : St) (l : LineIn) : Option (OutLine × St) :=
@@ -417,33 +474,13 @@ def stepLine (cfg : Config) (st : St) (l : LineIn) : Option (OutLine × St) :=
   let inVar' := nextInVar st.inVar l.toks
   if l.inBlockComment then
     some ({ text := l.text, inVar := lineInVar, skipAlign := skipAlignOf l }, { st with inVar := inVar' })
+  else if (trim l.text).isEmpty then
+    some ({ text := [], inVar := lineInVar, skipAlign := skipAlignOf l }, { st with inVar := inVar' })
   else
-    let trimmed := trim l.text
-    if trimmed.isEmpty then
-      some ({ text := [], inVar := lineInVar, skipAlign := skipAlignOf l }, { st with inVar := inVar' })
-    else
-      let (cur, dedentAfter) : Int × Bool :=
-        match l.toks.head? with
-        | some first =>
-          if isDedentToken first then
-            let shouldDedent := match cfg.endStyle with
-              | .aligned => true
-              | .indented => !isEndKeyword first
-            if shouldDedent then (max (st.indent - 1) 0, false) else (st.indent, true)
-          else (st.indent, false)
-        | none => (st.indent, false)
-      if cur < 0 then none
-      else
-        let prefix_ := repeatText (indentUnit cfg) cur.toNat
-        let verbatim := l.hasLineComment || l.hasPragma
-        let line :=
-          if verbatim then prefix_ ++ trimmed
-          else prefix_ ++ formatLineTokens l.toks cfg.kwCase cfg.style
-        let colon := if lineInVar && !verbatim then findTypeColon line else none
-        let lvl := if lineHasIndentStart l.toks then cur + 1 else cur
-        let lvl := if dedentAfter then lvl - 1 else lvl
-        some ({ text := line, inVar := lineInVar, colon := colon, skipAlign := skipAlignOf l },
-              { indent := lvl, inVar := inVar' })
+    let ci := curIndent cfg st.indent l.toks
+    if ci.1 < 0 then none
+    else some (emitLine cfg l lineInVar ci.1.toNat,
+               { indent := nextIndent ci.1 ci.2 l.toks, inVar := inVar' })
 
 /-- The whole first loop. -/
 def runLines (cfg : Config) : St → List LineIn → Option (List OutLine)
@@ -838,6 +875,51 @@ def onTypeFormat (cfg : Config) (src : Text) (d : Doc) (line : Nat) : Reply :=
       | some e => .edits [e]
       | none => .null
 
+/-- Applying an edit whose range starts at column 0 of line `sl` and ends at column 0 of line `el`
+(or at the end of the text): the shape of every edit `format_lines_edit` builds. -/
+def applyLineEdit (src : Text) (e : Edit) : Text :=
+  let ls := srcLines src
+  let pre := (ls.take e.sl).flatMap (· ++ ['\n'])
+  let post := if e.ec = 0 then joinWith ['\n'] (ls.drop e.el) else []
+  pre ++ e.newText ++ post
+
+/-! ## The abstract lexer interface of the re-lexing theorems -/
+
+/-- `format_line_tokens` re-cases keyword tokens. -/
+def recaseTok (kc : KwCase) (t : Tok) : Tok := { t with text := recase kc t }
+
+/-- Text of a token sequence with a glue decision per adjacent pair. -/
+def renderFrom (glue : Tok → Tok → Bool) : Option Tok → List Tok → Text
+  | _, [] => []
+  | prev, t :: rest =>
+    (match prev with
+     | none => []
+     | some p => if glue p t then [] else [' ']) ++ t.text ++ renderFrom glue (some t) rest
+
+def render (glue : Tok → Tok → Bool) (ts : List Tok) : Text := renderFrom glue none ts
+
+/-- `P` holds for every adjacent pair. -/
+def AdjAll (P : Tok → Tok → Prop) : List Tok → Prop
+  | a :: b :: rest => P a b ∧ AdjAll P (b :: rest)
+  | _ => True
+
+/-- What the proofs assume about `trust_syntax::lex` (restricted to the non-trivia tokens of one line).
+`classSafe` is validated against the real lexer on every run (harness case 0); `locality` is the
+assumption that pair-safety composes, exercised by the oracle on every generated text. -/
+structure LexIface where
+  /-- non-trivia tokens of a text -/
+  lex : Text → List Tok
+  /-- the tokens the lexer can produce (kind and class fit the text; no `Error`) -/
+  valid : Tok → Prop
+  /-- keyword variants have class `Kw` -/
+  valid_kw : ∀ t, valid t → t.isKw = true → t.kind = .Kw
+  /-- keywords are lexed case-insensitively: re-casing a valid token gives a valid token -/
+  valid_recase : ∀ kc t, valid t → valid (recaseTok kc t)
+  /-- LOCALITY: a rendering of valid tokens in which every glued pair is class-safe (all other pairs
+  are separated by one space) lexes to exactly these tokens -/
+  locality : ∀ (glue : Tok → Tok → Bool) (ts : List Tok), (∀ t ∈ ts, valid t) →
+    AdjAll (fun a b => glue a b = true → classSafe a.cls b.cls = true) ts → lex (render glue ts) = ts
+
 /-! ## The web IDE formatter (`format_structured_text_document`) -/
 
 /-- `str::lines()`: split at '\n', strip one '\r' before each '\n'; a final piece without '\n' is
@@ -852,7 +934,7 @@ where
 
 /-- `str::trim_end_matches([' ', '\t'])`. -/
 def trimEndBlanks (t : Text) : Text :=
-  (t.reverse.dropWhile fun c => c == ' ' || c == '\t').reverse
+  (t.reverse.dropWhile isBlank).reverse
 
 def txt (s : String) : Text := s.toList
 
@@ -879,9 +961,9 @@ def webCore (raw : Text) : Text := trimStart (trimEndBlanks raw)
 
 def webIndent (lvl : Nat) : Text := spaces (2 * lvl)
 
-/-- Body of the `for raw_line in source.lines()` loop: output line and next `indent_level`. -/
-def webStep (lvl : Nat) (raw : Text) : Text × Nat :=
-  let t := webCore raw
+/-- Body of the `for raw_line in source.lines()` loop on the kept part `t` of the line: output line and
+next `indent_level`. -/
+def webStepCore (lvl : Nat) (t : Text) : Text × Nat :=
   if t.isEmpty then ([], lvl)
   else if startsWith t (txt "//") || startsWith t (txt "(*") then (webIndent lvl ++ t, lvl)
   else
@@ -889,11 +971,11 @@ def webStep (lvl : Nat) (raw : Text) : Text × Nat :=
     let lvl1 := if isDedentLine u && lvl > 0 then lvl - 1 else lvl
     (webIndent lvl1 ++ t, if isIndentLine u then lvl1 + 1 else lvl1)
 
+def webStep (lvl : Nat) (raw : Text) : Text × Nat := webStepCore lvl (webCore raw)
+
 def webLines : Nat → List Text → List Text
   | _, [] => []
-  | lvl, raw :: rest =>
-    let (o, lvl') := webStep lvl raw
-    o :: webLines lvl' rest
+  | lvl, raw :: rest => (webStep lvl raw).1 :: webLines (webStep lvl raw).2 rest
 
 /-- `format_structured_text_document`. -/
 def webFormat (s : Text) : Text :=
